@@ -459,6 +459,34 @@ fn gen_extra_anchor(rng: &mut Rng, g: &QGen, nodes: &[Node]) -> Option<String> {
     Some(format!("{s}{cap}\n"))
 }
 
+/// Family 5: patterns for the MISSING (zero-width) nodes the parser inserted: the wildcard form
+/// `(MISSING)`, the typed forms, alone or as a child of the actual parent, with and without anchors.
+fn gen_missing(rng: &mut Rng, g: &QGen, nodes: &[Node]) -> Option<String> {
+    let missing: Vec<&Node> = nodes.iter().filter(|n| n.is_missing()).collect();
+    if missing.is_empty() {
+        return None;
+    }
+    let m = **rng.pick(&missing);
+    let form = match rng.below(3) {
+        0 | 1 => "(MISSING)".to_string(),
+        _ => {
+            if m.is_named() {
+                format!("(MISSING {})", m.kind())
+            } else {
+                format!("(MISSING {})", quote(m.kind()))
+            }
+        }
+    };
+    let cap = if rng.chance(3, 4) { g.capture(rng) } else { String::new() };
+    let q = match (rng.below(3), m.parent()) {
+        (0, _) | (_, None) => format!("{form}{cap}\n"),
+        (1, Some(p)) if !p.is_error() => format!("({} {form}{cap}){}\n", p.kind(), if rng.chance(1, 2) { g.capture(rng) } else { String::new() }),
+        (_, Some(p)) if !p.is_error() => format!("({} {form}{cap} .)\n", p.kind()),
+        _ => format!("{form}{cap}\n"),
+    };
+    Some(q)
+}
+
 fn gen_query(rng: &mut Rng, g: &mut QGen, tree: &Tree) -> Option<String> {
     let nodes = all_nodes(tree);
     let named: Vec<&Node> = nodes.iter().filter(|n| n.is_named() && !n.is_missing()).collect();
@@ -479,6 +507,11 @@ fn gen_query(rng: &mut Rng, g: &mut QGen, tree: &Tree) -> Option<String> {
         }
         4 | 5 | 6 => {
             if let Some(q) = gen_extra_anchor(rng, g, &nodes) {
+                return Some(q);
+            }
+        }
+        7 => {
+            if let Some(q) = gen_missing(rng, g, &nodes) {
                 return Some(q);
             }
         }
@@ -732,6 +765,10 @@ fn main() {
             }
             if d % 3 == 1 {
                 text = gen::mutate_bytes(&mut rng, &text);
+            } else if d % 3 == 0 && d > 0 && text.len() > 4 {
+                // truncated: dropped closers / terminators make the parser insert MISSING tokens
+                let cut = rng.range(text.len() / 2, text.len() - 1);
+                text.truncate(cut);
             }
             if text.len() > 300 {
                 text.truncate(300);
